@@ -29,7 +29,7 @@ import zipfile
 
 VERIF = os.path.dirname(os.path.dirname(os.path.abspath(__file__)))
 REPO = os.environ.get("VERIF_REPO", "/repo")
-WORK = os.path.join(VERIF, ".work")
+WORK = os.environ.get("VERIF_WORK") or os.path.join(VERIF, ".work")
 DEPS = os.path.join(VERIF, ".deps")
 WHEELS = "/opt/veriftools/wheels"
 GUARD = "STACKSCOPE_VERIF"
@@ -297,7 +297,7 @@ def main_check(check_id: str, tier: str, replay: str | None = None) -> int:
         "wall_s": round(wall, 2),
         "violations": len(real),
     }
-    if not replay:
+    if not replay and not os.environ.get("VERIF_NO_EVIDENCE"):
         os.makedirs(os.path.join(VERIF, "evidence"), exist_ok=True)
         tmp = os.path.join(VERIF, "evidence", check_id + ".json.tmp")
         with open(tmp, "w") as f:
